@@ -29,14 +29,16 @@ ALLOWED = {
     "ka-deva": ["top", "bottom"],
     "anusvara-deva": ["_top", "_bottom"],
 }
-POS = [(10, 20), (10.5, 20.5), (-250.5, 600)]
+POS = [(10, 20), (10.5, 20.5), (-250.5, 600), (104.75, 494.75)]
 OPS = [(g, n) for g, _ in REP for n in ALLOWED[g]]
 CATEGORIES = {"a": "base", "b": "base", "ka-deva": "base", "f_i": "ligature", "acutecomb": "mark",
               "gravecomb": "mark", "cedillacomb": "mark", "anusvara-deva": "mark"}
 GDEF_FEA = ("table GDEF { GlyphClassDef [a b ka-deva], [f_i], "
             "[acutecomb gravecomb cedillacomb anusvara-deva], ; } GDEF;\n")
-ENVS = [[], ["categories"], ["user-gdef"], ["group"], ["q5"], ["deva"], ["categories", "group"],
-        ["categories", "deva"], ["q5", "group"]]
+ENVS = [[], ["categories"], ["user-gdef"], ["group"], ["q5"], ["q10"], ["deva"], ["categories", "group"],
+        ["categories", "deva"], ["q5", "group"], ["fea-markclass"]]
+# a hand-written markClass statement left in features.fea whose anchor differs from the UFO's
+FEA_MARKCLASS = "markClass acutecomb <anchor 100 200> @MC_top;\n"
 MARK_FEATURES = {"mark", "mkmk", "abvm", "blwm"}
 NUM_RE = re.compile(r"^(.*)_(\d+)$")
 
@@ -59,6 +61,8 @@ def make_spec(env, anchors, reverse=False):
         fea += "languagesystem DFLT dflt;\nlanguagesystem dev2 dflt;\n"
     if "user-gdef" in env:
         fea += GDEF_FEA
+    if "fea-markclass" in env:
+        fea += FEA_MARKCLASS
     if fea:
         spec["features"] = fea
     if "categories" in env:
@@ -74,6 +78,8 @@ def compile_font(spec, env):
     kw = {}
     if "q5" in env:
         kw["quantization"] = 5
+    if "q10" in env:
+        kw["quantization"] = 10
     if "group" in env:
         kw["groupMarkClasses"] = True
     opts = {}
@@ -89,7 +95,7 @@ def qpt(x, y, q):
 
 def evaluate(tt, spec, env, counters):
     lay = O.Layout(tt)
-    q = 5 if "q5" in env else 1
+    q = 5 if "q5" in env else (10 if "q10" in env else 1)
     has_roles = "categories" in env or "user-gdef" in env
     anchors = {g: {a[0]: (a[1], a[2]) for a in spec["glyphs"][g]["anchors"]} for g, _ in REP}
     lookups = lay.lookups_of_features(MARK_FEATURES) if lay.gpos is not None else []
@@ -113,6 +119,10 @@ def evaluate(tt, spec, env, counters):
     viols, table = [], []
     for G, _ in REP:
         for M, _ in REP:
+            if "fea-markclass" in env and M == "acutecomb" and "_top" not in anchors[M]:
+                # the user's own markClass statement makes this glyph a mark of @MC_top with the
+                # user's anchor; what the generated lookups do with it is the user's definition
+                continue
             if not is_mark_glyph(M):
                 # never a mark: must not be attached by anything
                 got = lay.mark_attachments(lookups, G, M) if lookups else []
@@ -238,7 +248,9 @@ class C06(Property):
         head, anc = h[0], h[1:]
         maxd = b["plain_depth"] if not head["env"] else b["env_depth"]
         if head["env"] == ["group"]:
-            maxd = b["group_depth"]  # mark-class grouping needs >= 4 anchors to have something to group
+            maxd = b["group_depth"]
+        if head["env"] == ["fea-markclass"]:
+            maxd = b["env_depth"] + 1  # mark-class grouping needs >= 4 anchors to have something to group
         if "seed" in head:
             maxd = head["seed"] + 2
         if len(h) >= maxd:
@@ -246,9 +258,13 @@ class C06(Property):
         last = (OPS.index((anc[-1][0], anc[-1][1])) if anc and "seed" not in head else -1)
         # canonical (sorted) construction order; at most one anchor per (glyph, name)
         deep = len(anc) >= 2
-        npos = b["npos_deep"] if deep else len(POS)
+        npos = b["npos_deep"] if deep else 3
+        if head["env"] == ["q10"]:
+            npos = len(POS)  # incl. coordinates just below the midpoint of a quantisation step
         if head["env"] == ["group"] and "seed" not in head:
             npos = 1 if anc else 2
+        if head["env"] == ["fea-markclass"] and "seed" not in head:
+            npos = 1
         have = {(a[0], a[1]) for a in anc}
         for i in range(last + 1, len(OPS)):
             g, n = OPS[i]
